@@ -650,6 +650,10 @@ func (w *walker) call(c *ast.CallExpr) (toks []Tok, handled bool) {
 // of emitting call tokens; guards stay in the stream.  Used for writer/reader symmetry of large types.
 var Deep bool
 
+// WalkCases makes a switch on a decoded field contribute a marker per case followed by the case
+// body's tokens (instead of one opaque dynamic token).
+var WalkCases bool
+
 func (w *walker) hasIOArg(c *ast.CallExpr) bool {
 	for _, a := range c.Args {
 		if w.p.typeOf(w.en, a) == "io" {
@@ -841,6 +845,16 @@ func (w *walker) stmt(s ast.Stmt) []Tok {
 			res = append(res, w.calls(x.Init)...)
 		}
 		if w.mentionsVersion(x.Cond) {
+			// a conjunction of guards is a nest of guards
+			if be, ok := x.Cond.(*ast.BinaryExpr); ok && be.Op == token.LAND && x.Else == nil {
+				if _, ok1 := w.guard(be.X); ok1 {
+					if _, ok2 := w.guard(be.Y); ok2 {
+						inner := &ast.IfStmt{Cond: be.Y, Body: x.Body}
+						outer := &ast.IfStmt{Cond: be.X, Body: &ast.BlockStmt{List: []ast.Stmt{inner}}}
+						return append(res, w.stmt(outer)...)
+					}
+				}
+			}
 			g, ok := w.guard(x.Cond)
 			if !ok {
 				res = append(res, Tok{K: "other", S: "if " + w.f.Src(x.Cond)})
@@ -970,8 +984,26 @@ func (w *walker) stmt(s ast.Stmt) []Tok {
 		if x.Init != nil {
 			res = append(res, w.calls(x.Init)...)
 		}
-		// dispatch on a decoded field (the case bodies are not walked)
-		res = append(res, Tok{K: "dyn", S: "switch " + w.f.Src(x.Tag)})
+		// dispatch on a decoded field
+		if !WalkCases {
+			res = append(res, Tok{K: "dyn", S: "switch " + w.f.Src(x.Tag)})
+			return res
+		}
+		// every case: a marker with its labels, then the tokens of its body
+		res = append(res, Tok{K: "other", S: "switch"})
+		for _, c := range x.Body.List {
+			cc := c.(*ast.CaseClause)
+			var labels []string
+			for _, e := range cc.List {
+				labels = append(labels, w.f.Src(e))
+			}
+			if cc.List == nil {
+				labels = []string{"default"}
+			}
+			res = append(res, Tok{K: "other", S: "case " + strings.Join(labels, ",")})
+			res = append(res, w.block(cc.Body)...)
+		}
+		res = append(res, Tok{K: "other", S: "endswitch"})
 		return res
 	case *ast.ReturnStmt:
 		return w.calls(x)
